@@ -37,13 +37,13 @@ AdmitsOp(f, o) ==
     /\ (f = "perm" => o = "=")
 
 VClasses(f) ==
-    IF f \in UidFields THEN { "zero", "small", "max31", "high", "unset", "minus1", "name_root" }
-    ELSE IF f \in GidFields THEN { "zero", "small", "max31", "high", "unset", "minus1", "name_root" }
+    IF f \in UidFields THEN { "zero", "small", "max31", "high", "unset", "minus1", "name_root", "overflow" }
+    ELSE IF f \in GidFields THEN { "zero", "small", "max31", "high", "unset", "minus1", "name_root", "overflow" }
     ELSE IF f \in StrFields THEN { "short", "long", "max", "special", "utf8" }
     ELSE IF f = "saddr_fam" THEN { "two", "ten" }
-    ELSE IF f \in NumFields THEN { "zero", "one", "dec", "hex", "neg", "max" }
-    ELSE IF f = "exit" THEN { "zero", "pos", "neg", "errno_neg", "errno_pos", "min" }
-    ELSE IF f = "msgtype" THEN { "num", "name", "high" }
+    ELSE IF f \in NumFields THEN { "zero", "one", "dec", "hex", "neg", "max", "overflow" }
+    ELSE IF f = "exit" THEN { "zero", "pos", "neg", "errno_neg", "errno_pos", "min", "overflow" }
+    ELSE IF f = "msgtype" THEN { "num", "name", "high", "overflow" }
     ELSE IF f = "arch" THEN { "b64", "b32", "x86_64", "i386", "aarch64", "arm", "ppc", "ppc64", "ppc64le", "s390", "s390x" }
     ELSE IF f = "perm" THEN { "r", "w", "x", "a", "rw", "wa", "xr", "rwxa" }
     ELSE { "file", "dir", "socket", "symlink", "char", "block", "fifo" }
@@ -52,7 +52,8 @@ FopCases == { [c |-> "fop", field |-> f, op |-> o, vclass |-> v, list |-> l] :
                 f \in Fields, o \in Ops, l \in Lists, v \in UNION { VClasses(g) : g \in Fields } }
 Fop == { x \in FopCases : x.vclass \in VClasses(x.field) /\ AdmitsList(x.field, x.list) /\ AdmitsOp(x.field, x.op) }
 
-SyscallShapes == { "none", "all", "one", "many", "names64", "names32", "high", "dense" }
+\* "all_then", "then_all": the word all next to specific syscalls (auditctl: all wins)
+SyscallShapes == { "none", "all", "one", "many", "names64", "names32", "high", "dense", "all_then", "then_all" }
 Shape == { [c |-> "shape", list |-> l, action |-> a, sc |-> s, nkeys |-> k] :
              l \in Lists, a \in Actions, s \in SyscallShapes, k \in 0..3 }
 
